@@ -78,6 +78,16 @@ CLAIMED = {
                      'is processed; \\whiledo iterates exactly bound times for every bound 0..6.',
                 note='Trusted: z3, AST rewrite, the direct recursive evaluator and its linearisation (binary right operands and binary \\not operands parenthesised).',
                 ref='DESIGN.md section 5 C19'),
+    'C20': dict(level='fault_enumeration',
+                text='Exhaustive enumeration of decoder behaviours through a nondeterministic stub: for each of 12 exception classes pickle.load can raise and each value of a shape '
+                     'grammar (None/int/str/list/tuple/dict around the per-renderer and per-label entries, with and without another renderer\'s data) x {restore, persist, '
+                     'persist then restore}: restore never raises and only adds well-formed labels, persist never raises, the re-saved file is loadable by the real pickle, '
+                     'contains every current label and keeps a well-formed other renderer\'s data, and restoring it yields the labels; round trip of labels with symbolic names '
+                     'across two renderer keys.',
+                note='The C decoder cannot be encoded: the stub over-approximates every truncation and bit flip (the decoder can only raise or return some value). Concrete replay '
+                     'uses real bytes and the real pickle.load wherever a byte recipe exists. Finite enumeration; the solver only decides the round-trip label names.',
+                ref='DESIGN.md section 5 C20',
+                technique='symbolic execution of the real persist/restore against a nondeterministic decoder stub (exception classes and a value-shape grammar), counterexamples replayed with real bytes'),
 }
 
 NOT_YET = {}
